@@ -117,7 +117,9 @@ Perturb(Jd, depth) ==
   (CASE Jd.j = "a" ->
           UNION {{[Jd EXCEPT !.e[i] = p] : p \in Perturb(Jd.e[i], depth + 1)} : i \in 1..Len(Jd.e)}
           \cup (IF Len(Jd.e) > 0 THEN {Arr(Tail(Jd.e)), Arr(Jd.e \o <<Jd.e[1]>>), Arr(Jd.e \o <<N("p300")>>), Arr(Jd.e \o <<[j |-> "x", c |-> "x01"]>>),
-                                      Arr(Jd.e \o <<[j |-> "xs", c |-> "xnone"]>>), Arr(<<[j |-> "xs", c |-> "xnone"]>> \o Jd.e)} ELSE {})
+                                      Arr(Jd.e \o <<[j |-> "xs", c |-> "xnone"]>>), Arr(<<[j |-> "xs", c |-> "xnone"]>> \o Jd.e),
+                                      \* longer than any prior slice's capacity (3), with nulls where the prior value has (visible or stale) elements
+                                      Arr(<<Jd.e[1], Null, Null, Jd.e[1]>>), Arr(<<Null, Null, Null, Null, Jd.e[1]>>)} ELSE {})
      [] Jd.j = "o" ->
           UNION {{[Jd EXCEPT !.m[i].v = p] : p \in Perturb(Jd.m[i].v, depth + 1)} : i \in 1..Len(Jd.m)}
           \cup (IF depth = 0 THEN {[Jd EXCEPT !.m[i].k = k2] : i \in 1..Len(Jd.m), k2 \in AltKeys} ELSE {})
